@@ -1423,15 +1423,15 @@ def _cond(ctx, eqn, which, *ops):
     return outs
 
 
-def _scan_parts(eqn):
+def _scan_parts(eqn, args):
+    """(consts, init carry, xs, number of carry outputs) - arities come from the flat-trees in this JAX version."""
     p = eqn.params
     if "num_consts" in p:
         nc, ncar = p["num_consts"], p["num_carry"]
-        return nc, ncar
-    ft_in = p["ft_in"]
-    consts, carry, xs = ft_in.unpack()
-    import jax as _jax
-    return len(_jax.tree.leaves(consts)), len(_jax.tree.leaves(carry))
+        return list(args[:nc]), list(args[nc:nc + ncar]), list(args[nc + ncar:]), ncar
+    consts, init, xs = [list(x) for x in p["ft_in"].update(list(args)).unpack()]
+    co, ys = p["ft_out"].update(list(range(len(eqn.outvars)))).unpack()
+    return consts, init, xs, len(list(co))
 
 
 @rule("scan")
@@ -1440,8 +1440,8 @@ def _scan(ctx, eqn, *args):
     length = ctx.dim(p["length"])
     reverse = p["reverse"]
     jaxpr, jconsts = _closed(p["jaxpr"])
-    nc, ncar = _scan_parts(eqn)
-    consts, init, xs = list(args[:nc]), list(args[nc:nc + ncar]), list(args[nc + ncar:])
+    consts, init, xs, ncar = _scan_parts(eqn, args)
+    assert ncar == len(init), (ncar, len(init))
     n_out = len(eqn.outvars)
     n_ys = n_out - ncar
 
